@@ -96,6 +96,23 @@ func newC03Sys(n, bitsPer int) *c03Sys {
 	for i := 0; i < n; i++ {
 		ws = append(ws, wd{Bridge: 1, Seq: uint64(i + 1), From: fmt.Sprintf("l2user%d", i%2), To: bob, Denom: "uxx", Amount: uint64(2 + i%3)})
 	}
+	// leaf hashes with extreme first bytes: the first leaf's hash starts with 0x00, the last one's with
+	// 0xff (the L2 sender string is ground for it) — code that treats "looks empty" or "sorts first/last"
+	// specially meets both
+	grind := func(i int, first byte) {
+		for k := 0; ; k++ {
+			w := ws[i]
+			w.From = fmt.Sprintf("l2user%d-%d", i%2, k)
+			if w.leaf()[0] == first {
+				ws[i] = w
+				return
+			}
+		}
+	}
+	grind(0, 0x00)
+	if n > 1 {
+		grind(n-1, 0xff)
+	}
 	other := []wd{
 		{Bridge: 1, Seq: 21, From: "l2other", To: world.Addr("alice").String(), Denom: "uxx", Amount: 7},
 		{Bridge: 1, Seq: 22, From: "l2other", To: bob, Denom: "uyy", Amount: 3},
